@@ -1,7 +1,7 @@
 (* Props/C18.v — property theorems for C18 only; each closed by `exact` of a lemma proved
    elsewhere, with Print Assumptions beneath. *)
 From Coq Require Import List NArith Bool Sorted Permutation.
-From KV Require Import Bytes Memtable MemtableProofs SkipList SkipListProofs.
+From KV Require Import Bytes Memtable MemtableProofs SkipList SkipListProofs SkipConc.
 Import ListNotations.
 Open Scope N_scope.
 
@@ -142,3 +142,100 @@ Theorem C18_towers_prevs : forall e s top l P, sl_wf s ->
   chain l P = dropw (less_entry e) (chain l (sl_nodes s)).
 Proof. exact SkipListProofs.sl_insert_prevs. Qed.
 Print Assumptions C18_towers_prevs.
+
+(* ---- Part C: readers concurrent with the single writer -------------------------------- *)
+
+(* after every prefix of the store sequence of one Insert the heap is well formed *)
+Theorem C18_wellformed_always : forall h0 ls e n height k,
+  wf_heap h0 ls -> fresh_node h0 ls n e ->
+  let prev := fun lv => pred_of h0 e (ls lv) in
+  let h := run n prev h0 (firstn k (insert_prog height)) in
+  exists ls',
+    wf_heap h ls' /\
+    (forall lv, sorted (ents h (ls' lv))) /\
+    (forall a, entry_of h a = entry_of h0 a) /\
+    (forall lv, incl (ls lv) (ls' lv)) /\
+    (forall lv, ents h (ls' lv) = ents h0 (ls lv) \/
+                ents h (ls' lv) = insert e (ents h0 (ls lv))).
+Proof. exact SkipConc.C18_wellformed_always. Qed.
+Print Assumptions C18_wellformed_always.
+
+Theorem C18_insert_complete : forall h0 ls e n height,
+  wf_heap h0 ls -> fresh_node h0 ls n e ->
+  let prev := fun lv => pred_of h0 e (ls lv) in
+  let h := run n prev h0 (insert_prog height) in
+  let ls' := fun lv => if Nat.ltb lv height then linked_in h0 e n (ls lv) else ls lv in
+  wf_heap h ls' /\
+  (forall lv, ents h (ls' lv) =
+              if Nat.ltb lv height then insert e (ents h0 (ls lv)) else ents h0 (ls lv)).
+Proof. exact SkipConc.C18_insert_complete. Qed.
+Print Assumptions C18_insert_complete.
+
+(* level-0 traversals whose loads interleave arbitrarily with the stores of one Insert *)
+Theorem C18_reader : forall h0 ls e n height rs sched,
+  wf_heap h0 ls -> fresh_node h0 ls n e ->
+  Forall (reader_ok h0 ls) rs ->
+  let prev := fun lv => pred_of h0 e (ls lv) in
+  let s := sys_run n prev (mkSys h0 (insert_prog height) rs) sched in
+  length (s_readers s) = length rs /\
+  forall r, In r (s_readers s) ->
+    (exists rest, r_done r ++ rest = head :: ls 0%nat \/
+                  r_done r ++ rest = head :: linked_in h0 e n (ls 0%nat)) /\
+    (r_cur r = None ->
+       let out := ents (s_heap s) (tl (r_done r)) in
+       (out = ents h0 (ls 0%nat) \/ out = insert e (ents h0 (ls 0%nat))) /\ sorted out /\
+       (forall x, In x (ents h0 (ls 0%nat)) -> In x out)).
+Proof. exact SkipConc.C18_reader. Qed.
+Print Assumptions C18_reader.
+
+(* the top-down search on the heap computes the prev[] used above *)
+Theorem C18_heap_search : forall h ls e fuel,
+  wf_heap h ls -> (forall lv, length (ls lv) <= fuel)%nat ->
+  forall height lv, (lv < height)%nat -> h_prevs h e fuel height lv = pred_of h e (ls lv).
+Proof. exact SkipConc.h_prevs_spec. Qed.
+Print Assumptions C18_heap_search.
+
+Theorem C18_wellformed_always_search : forall h0 ls e n height fuel k,
+  wf_heap h0 ls -> fresh_node h0 ls n e -> (length (ls 0%nat) <= fuel)%nat ->
+  let h := run n (h_prevs h0 e fuel height) h0 (firstn k (insert_prog height)) in
+  exists ls',
+    wf_heap h ls' /\
+    (forall lv, sorted (ents h (ls' lv))) /\
+    (forall a, entry_of h a = entry_of h0 a) /\
+    (forall lv, incl (ls lv) (ls' lv)) /\
+    (forall lv, ents h (ls' lv) = ents h0 (ls lv) \/
+                ents h (ls' lv) = insert e (ents h0 (ls lv))).
+Proof. exact SkipConc.C18_wellformed_always_search. Qed.
+Print Assumptions C18_wellformed_always_search.
+
+Theorem C18_reader_search : forall h0 ls e n height fuel rs sched,
+  wf_heap h0 ls -> fresh_node h0 ls n e -> (length (ls 0%nat) <= fuel)%nat ->
+  Forall (reader_ok h0 ls) rs ->
+  let s := sys_run n (h_prevs h0 e fuel height) (mkSys h0 (insert_prog height) rs) sched in
+  length (s_readers s) = length rs /\
+  forall r, In r (s_readers s) ->
+    (exists rest, r_done r ++ rest = head :: ls 0%nat \/
+                  r_done r ++ rest = head :: linked_in h0 e n (ls 0%nat)) /\
+    (r_cur r = None ->
+       let out := ents (s_heap s) (tl (r_done r)) in
+       (out = ents h0 (ls 0%nat) \/ out = insert e (ents h0 (ls 0%nat))) /\ sorted out /\
+       (forall x, In x (ents h0 (ls 0%nat)) -> In x out)).
+Proof. exact SkipConc.C18_reader_search. Qed.
+Print Assumptions C18_reader_search.
+
+(* readers that appear at any moment while the writer works through any list of inserts *)
+Theorem C18_reader_multi : forall fuel h0 ls0 todo sched1 sched2,
+  wf_heap h0 ls0 -> todo_ok h0 todo -> (length (ls0 0%nat) + length todo <= fuel)%nat ->
+  let s1 := m_run fuel (m_init h0 todo) sched1 in
+  let s2 := m_run fuel (m_step fuel s1 MSpawn) sched2 in
+  let r := nth (length (m_readers s1)) (m_readers s2) r_init in
+  exists C1 C2,
+    path (m_heap s1) 0 (Some head) C1 /\
+    path (m_heap s2) 0 (Some head) C2 /\ sorted (ents (m_heap s2) (tl C2)) /\
+    (exists rest, subseq C1 (r_done r ++ rest) /\ subseq (r_done r ++ rest) C2) /\
+    (r_cur r = None ->
+       let out := ents (m_heap s2) (tl (r_done r)) in
+       sorted out /\ subseq (tl C1) (tl (r_done r)) /\ subseq (tl (r_done r)) (tl C2) /\
+       (forall x, In x (ents (m_heap s1) (tl C1)) -> In x out)).
+Proof. exact SkipConc.C18_reader_multi. Qed.
+Print Assumptions C18_reader_multi.
